@@ -41,6 +41,19 @@ for _k in ("int", "int32", "int64", "rune", "uint", "uint32", "uint64", "byte"):
                    "want": "[f:4615063718147915776,f:4615063718147915776,f:4609434218613702656,f:4613937818241073152,f:4613937818241073152,s:3273,s:7332]",
                    "why": "a value of kind %s with a float operand is carried out in float64, with a string operand it concatenates, on either side" % _k})
 
+# every operator form on every integer kind a script can make gives what the same form gives on an int64 of the same value
+_FORMS = [("n + 3", "i:5"), ("3 + n", "i:5"), ("n - 3", "i:-1"), ("3 - n", "i:1"), ("n * 3", "i:6"), ("3 * n", "i:6"), ("n / 4", "f:4602678819172646912"),
+          ("4 / n", "f:4611686018427387904"), ("n % 3", "i:2"), ("7 % n", "i:1"), ("n << 1", "i:4"), ("1 << n", "i:4"), ("n >> 1", "i:1"), ("n & 3", "i:2"),
+          ("n | 4", "i:6"), ("-n", "i:-2"), ("^n", "i:-3"), ("n == 2", "b:true"), ("2 == n", "b:true"), ("n != 2", "b:false"), ("n < 3", "b:true"),
+          ("3 < n", "b:false"), ("n <= 2", "b:true"), ("n >= 2", "b:true"), ("n > 1", "b:true"), ("n == 2.0", "b:true"), ("n < 2.5", "b:true"),
+          ("2.5 > n", "b:true"), ("func() { x = n; x++; return x }()", "i:3"), ("func() { x = n; x += 1; return x }()", "i:3"),
+          ("func() { x = n; x -= 5; return x }()", "i:-3"), ("func() { x = n; x *= 1.5; return x }()", "f:4613937818241073152"),
+          ("[7, 8, 9][n]", "i:9"), ("n in [2]", "b:true"), ("2 in [n]", "b:true"), ("n ? 1 : 0", "i:1"), ("\"ab\" * n", "s:61626162")]
+for _k in ("int", "int32", "int64", "rune", "uint", "uint32", "uint64", "byte"):
+    EXPECT.append({"src": "b = make([]%s, 1); b[0] = 2; n = b[0]\n[%s]" % (_k, ", ".join(f for f, _ in _FORMS)), "field": "result",
+                   "want": "[" + ",".join(w for _, w in _FORMS) + "]",
+                   "why": "every operator form on a value of kind %s gives what it gives on an int64 of the same value" % _k})
+
 
 def run(tier, seed, replay=None):
     return interpcheck.run_interp_check(
